@@ -157,7 +157,7 @@ def gen_case(rng, tier):
                 seq = _rand_seq(rng)
                 seqs.append(seq)
             if rng.random() < 0.08:
-                ops.append({"op": "interrupted_std", "seq": seq, "at": rng.randint(1, 12)})
+                ops.append({"op": "interrupted_std", "seq": seq, "at": rng.randint(1, 12) if rng.random() < 0.7 else {"guided": round(rng.random(), 3)}})
             ops.append({"op": "std", "seq": seq, "via": rng.choice(["to_standard", "standardize", "from_iterable"]),
                         "cont": rng.choice(["list", "tuple", "iter", "gen"])})
         elif r < 0.81:
@@ -424,8 +424,12 @@ def execute(case):
                 import os  # pylint: disable=import-outside-toplevel
 
                 vals = _decode_vals(op["seq"])
-                status, _r, _n = histsim.run_interruptible(lambda v=vals: pm.Perm.to_standard(list(v)), op["at"],
-                                                           [os.path.join(core.repo_dir(), "permuta") + os.sep])
+                pref = [os.path.join(core.repo_dir(), "permuta") + os.sep]
+                at = op["at"]
+                if isinstance(at, dict):
+                    at = histsim.guided_interrupt_at(lambda v=vals: pm.Perm.to_standard(list(v)), pref, at["guided"])
+                    out.probe("guided_interrupt" if at else "guided_interrupt_no_state_change")
+                status, _r, _n = histsim.run_interruptible(lambda v=vals: pm.Perm.to_standard(list(v)), at or 10 ** 9, pref)
                 if status == "interrupted":
                     out.fault("interrupted_call")
                     out.probe("interrupted_call")
